@@ -536,7 +536,7 @@ func TestC42(t *testing.T) {
 			"for item buffers (getItemBuf returns len == requested) 'empty' means every element of B is the zero value",
 			"sync.Pool may drop buffers at any time (and drops a quarter of the puts under -race), so reuse is probabilistic; itembuf/bytebuffer *_recycled counters show that reuse happened",
 		},
-		Cases:           map[string]int{"quick": 480, "thorough": 7200},
+		Cases:           map[string]int{"quick": 240, "thorough": 3600},
 		RequireCounters: []string{"bytebuffer_get", "byteslices_get", "itembuf_get", "bytebuffer_put_foreign", "byteslices_put_foreign", "itembuf_put_foreign", "bytebuffer_put_grown", "byteslices_put_grown", "itembuf_put_grown", "bytebuffer_get_returned_recycled_foreign_capacity", "bytebuffer_get_above_max", "byteslices_get_above_max", "itembuf_get_above_max", "itembuf_get_non_positive_length", "byteslices_get_non_positive_length", "itembuf_put_with_dirty_elements_beyond_len", "itembuf_elements_checked_zero"},
 		CaseTimeout:     10 * time.Minute,
 		Run:             runCase,
